@@ -277,6 +277,20 @@ def connDo (o : OpSpec) (v : Nat) (topic : Bytes) (c : Conn) : Outcome × Conn :
       let (out, s') := opRead o v topic ⟨rest, sz⟩
       (out, { stream := s'.inp, nextId := c.nextId + 1, closed := out.isFail && o.closeOnErr })
 
+/-! ### the un-framed exchange of saslAuthenticate after a v0 handshake
+
+    readInt32(&c.rbuf, 4, &respLen); respLen < 0 → error; readNewBytes(&c.rbuf, int(respLen), int(respLen))
+
+No size prefix of a frame, no correlation id; errors do not close the Conn (the dial that runs the exchange does). -/
+def rawToken (inp : Bytes) : Outcome × Bytes :=
+  match readInt 4 ⟨inp, 4⟩ with
+  | (.error e, s) => (.fail e, s.inp)
+  | (.ok n, s) =>
+    if n < 0 then (.fail (.other "invalid negative length of sasl authentication response"), s.inp)
+    else match readNewBytes n ⟨s.inp, n.toNat⟩ with
+      | (.ok _, s') => (.ok, s'.inp)
+      | (.error e, s') => (.fail e, s'.inp)
+
 /-! ### the read lock (c.rlock)
 
 waitResponse takes the lock; it is released on the peek-error and ErrNoProgress exits, when yielding to another waiter,
